@@ -306,6 +306,14 @@ impl World {
         self.after_send(r, app, true, stun_rs::methods::BINDING)
     }
 
+    /// send_request with a caller buffer that is too small for any message (the encode step must fail cleanly)
+    pub fn send_tiny(&mut self, app: usize, cap: usize) -> Obs {
+        let attrs = self.attrs(app);
+        let at = self.instant();
+        let r = guard(|| self.client.send_request(stun_rs::methods::BINDING, attrs, vec![0u8; cap], at));
+        self.after_send(r, app, true, stun_rs::methods::BINDING)
+    }
+
     pub fn send_method(&mut self, app: usize, method: u16, indication: bool) -> Obs {
         let attrs = self.attrs(app);
         let at = self.instant();
